@@ -736,3 +736,48 @@ def run_getattr(prog, rep):
                 probs.append('returns %r' % (out[1],))
         rule.check(not probs, 'LocID::getAttr%s' % f.sig[:60], rep.where(f), f.label(), 'false iff !hasAttr(name); otherwise open, size, read', '; '.join(sorted(set(probs))))
     return rule
+
+
+MUTATING_ALGOS = ('sort', 'stable_sort', 'partial_sort', 'nth_element', 'reverse', 'rotate', 'unique', 'remove', 'remove_if', 'transform', 'replace', 'replace_if',
+                  'fill', 'fill_n', 'generate', 'iota', 'for_each', 'shuffle', 'random_shuffle', 'partition', 'stable_partition', 'swap_ranges', 'copy', 'copy_backward', 'move')
+
+
+def run_getter_raw(prog, rep):
+    """a backend getter returns what it read: a local filled by getAttr / getData / read is not rewritten (sorted, trimmed,
+    transformed) before it is returned"""
+    rule = rep.rule('R-GETRAW', 'backend const getters hand back the value read from the file as it was read: the variable filled by getAttr / getData is not passed to a mutating algorithm or a non-const member function afterwards', floor=25)
+    n = 0
+    for f in sorted(prog.funcs.values(), key=lambda f: (f.file, f.line)):
+        if f.body is None or not (f.cls or '').startswith('nix::hdf5::') or not f.is_const or (f.cls or '') in ('nix::hdf5::LocID', 'nix::hdf5::H5Group', 'nix::hdf5::DataSet'):
+            continue
+        fills = {}
+        for c in f.calls():
+            if (c.callee or {}).get('name') in ('getAttr', 'getData', 'read') and ((c.callee or {}).get('cls') or '').startswith('nix::hdf5::'):
+                a = [x for x in real_args(c) if x is not None]
+                if len(a) >= 2:
+                    v = unwrap(a[1])
+                    if v is not None and v.k == 'ref' and v.decl.get('kind') == 'local':
+                        fills.setdefault(v.decl.get('lid'), (v.decl.get('name'), c))
+        for lid, (name, c) in sorted(fills.items(), key=lambda kv: kv[1][0]):
+            n += 1
+            bad = []
+            for m in f.calls():
+                if m.id <= c.id:
+                    continue
+                nm = (m.callee or {}).get('name') or ''
+                q = (m.callee or {}).get('q') or ''
+                touches = any(x.k == 'ref' and x.decl.get('lid') == lid for x in m.walk())
+                if not touches:
+                    continue
+                if nm in MUTATING_ALGOS and (q.startswith('std::') or q.startswith('boost::')):
+                    dst = [x for x in real_args(m) if x is not None]
+                    # the read variable is the range that is written (first range for in-place algorithms, last for copy/transform)
+                    bad.append('%s(%s)' % (nm, m.src(40)))
+                elif m.get('member') and m.c and unwrap(m.c[0]) is not None and unwrap(m.c[0]).k == 'ref' and unwrap(m.c[0]).decl.get('lid') == lid and \
+                        not (m.callee or {}).get('sig', '').endswith(' const') and nm in ('erase', 'pop_back', 'resize', 'clear', 'insert', 'push_back', 'assign', 'replace', 'append'):
+                    bad.append('%s.%s' % (name, nm))
+            rule.check(not bad, '%s%s|%s' % (f.q, f.sig[:40], name), rep.where(c), f.label(), '%s is returned as read' % name,
+                       '%s is rewritten after it was read (%s): the getter does not report what is stored (and a check that runs on the getter\'s answer cannot see the stored state)' % (name, ', '.join(bad[:2])))
+    if n < 25:
+        raise AnalysisBroken('R-GETRAW: only %d read variables found' % n)
+    return rule
